@@ -130,6 +130,8 @@ def run(ctx):
             # address spellings: a scoped link-local address and an uncompressed one (the socket reports the peer in the kernel's spelling)
             (dict(hosts=["fe80::1%eth0", "10.0.0.2", "fd00:0:0:0::5"], rounds=7, behaviours=["ok", "wrong-id", "close-m1"], triggers=["zc-same", "drop", "ensure"]), 2),
             (dict(hosts=["10.0.0.1"], rounds=6, subscriptions=True, behaviours=["ok", "ok-close-on-subscribe", "ok-reset-on-subscribe", "ok-bad-subscribe-reply", "auth-error"], triggers=["zc-same", "ensure", "drop", "close"]), 2),
+            # replies that are damaged rather than refusing: an M2 whose encrypted part does not open, a public key of the wrong length
+            (dict(hosts=["10.0.0.1"], rounds=6, behaviours=["ok", "bad-tag", "short-key", "auth-error"], triggers=["zc-same", "ensure", "drop"]), 2),
             # from non-initial states: connected then dropped; authentication failed; closed then re-triggered
             (dict(hosts=["10.0.0.1", "10.0.0.2"], rounds=6, prelude=["ok|10.0.0.1|ok", "drop"], **small), 1),
             (dict(hosts=["10.0.0.1"], rounds=5, prelude=["ok|10.0.0.1|auth-error"], **small), 2),
